@@ -363,13 +363,33 @@ def r6_997_counter(ctx):
     ok = src == '(1+self.seg_count)'
     yield Ob('error_997:error_997_visitor.visit_gs_post SE01 = counter + 1 (SE included)', ok, ctx.floc(f), '' if ok else 'SE01 source is %s' % src)
     f = ctx.func('error_997', 'error_997_visitor.visit_root_post')
-    txt = ast.unparse(f)
-    ok = "'GE*%i*%s' % (self.st_loop_count, self.gs_seg.get_value('GS06'))" in txt
-    require_idiom(ok, 'c06.py:324')
-    yield Ob('error_997:error_997_visitor.visit_root_post GE01 = st_loop_count, GE02 = GS06 written', ok, ctx.floc(f), '' if ok else 'GE construction changed')
-    ok = "'IEA*%i*%s' % (self.gs_loop_count, self.isa_control_num)" in txt
-    require_idiom(ok, 'c06.py:326')
-    yield Ob('error_997:error_997_visitor.visit_root_post IEA01 = gs_loop_count, IEA02 = ISA13 written', ok, ctx.floc(f), '' if ok else 'IEA construction changed')
+
+    def template_args(fn, tag):
+        """the values interpolated into the text of the one Segment whose template starts with `tag*`"""
+        for c in A.calls_in(fn):
+            if A.call_target(c)[1] != 'Segment' or not c.args:
+                continue
+            t = c.args[0]
+            if isinstance(t, ast.BinOp) and isinstance(t.op, ast.Mod) and A.is_str(t.left) and t.left.value.startswith(tag + '*'):
+                return list(t.right.elts) if isinstance(t.right, ast.Tuple) else [t.right]
+            if isinstance(t, ast.Call) and isinstance(t.func, ast.Attribute) and t.func.attr == 'format' and A.is_str(t.func.value) \
+                    and t.func.value.value.startswith(tag + '*'):
+                return list(t.args)
+            if isinstance(t, ast.JoinedStr) and t.values and isinstance(t.values[0], ast.Constant) and str(t.values[0].value).startswith(tag + '*'):
+                return [v.value for v in t.values if isinstance(v, ast.FormattedValue)]
+        return None
+    ge = template_args(f, 'GE')
+    require_idiom(ge is not None and len(ge) == 2, 'c06.py:324')
+    # GE02 is read back from the GS that was written (self.gs_seg): the two cannot differ
+    ok = norm(ge[0]) == 'self.st_loop_count' and norm(ge[1]) in ("self.gs_seg.get_value('GS06')", "self.gs_seg.get_value('06')")
+    yield Ob('error_997:error_997_visitor.visit_root_post GE01 = st_loop_count, GE02 = GS06 written', ok, ctx.floc(f),
+             '' if ok else 'GE is built from (%s, %s): GE02 must be the GS06 of the GS segment this acknowledgement wrote (self.gs_seg), '
+             'any other source can differ from it (an input group left open shifts the error tree\'s group ids)' % (norm(ge[0]), norm(ge[1])))
+    iea = template_args(f, 'IEA')
+    require_idiom(iea is not None and len(iea) == 2, 'c06.py:326')
+    ok = [norm(x) for x in iea] == ['self.gs_loop_count', 'self.isa_control_num']
+    yield Ob('error_997:error_997_visitor.visit_root_post IEA01 = gs_loop_count, IEA02 = ISA13 written', ok, ctx.floc(f),
+             '' if ok else 'IEA is built from %s' % [norm(x) for x in iea])
     # ISA13 written = isa_control_num
     f = ctx.func('error_997', 'error_997_visitor.visit_root_pre')
     vals = _seg_values(f, 'isa_seg', 'ISA')
